@@ -233,13 +233,17 @@ type httpReadWriter struct {
 }
 
 func (hrw *httpReadWriter) Read(ctx context.Context) (*Rpc, error) {
-	rpc, ok := <-hrw.readCh
-	if !ok {
-		log.Error().Msgf("HttpRpcReadWriter: read err: closed")
-		return nil, errors.New("readCh closed")
+	select {
+	case <-ctx.Done():
+		return nil, ctx.Err()
+	case rpc, ok := <-hrw.readCh:
+		if !ok {
+			log.Error().Msgf("HttpRpcReadWriter: read err: closed")
+			return nil, errors.New("readCh closed")
+		}
+		hrw.bumpActivity()
+		return rpc, nil
 	}
-	hrw.bumpActivity()
-	return rpc, nil
 }
 
 func (hrw *httpReadWriter) Write(ctx context.Context, rpc *Rpc) error {
